@@ -43,6 +43,9 @@ claimed = {
  "C19": dict(cat="exploration", tech="bounded exhaustive input enumeration on the real conversion functions (complete grids, no sampling), settable clock shim",
              text="Complete enumeration of all decimals k*10^-d (0<=d<=4, |k|<=2e5 quick / 5e6 thorough), a structured magnitude grid below 1e14, all durations n*100ms up to 1e6 / 4e7 plus strides to 33 years, every second of a dense week and month boundaries of all years 1..9999, and relative end times read back with a stepped clock; each input is converted on the real code and compared with the exact expectation.",
              ref="4 C19"),
+ "C18": dict(cat="exploration", tech="bounded exhaustive input enumeration on the real code: complete function table x command shapes, and reflectively generated values of every model type, JSON round trip",
+             text="Every function CreateFunctionData registers for every feature type the factory accepts (discovered from the working tree) x 9 command shapes is built through ReadCmdType/ReplyCmdType/NotifyOrWriteCmdType, encoded, decoded and compared (function, payload type, partial/delete split, selectors, elements); every exported struct type of package model x {zero, each single field, list lengths 0/1/2, all fields} to depth 3 is round-tripped through JSON and compared modulo absent==empty lists and relative end times under a fixed clock.",
+             ref="4 C18"),
 }
 checks = []
 for pid, c in sorted(claimed.items()):
